@@ -33,6 +33,11 @@ values stored to the views. C08.7: derived quantities are computed on demand
 combination — scale-only applies scale(s) and nothing else, similarity applies
 scale then transform, rigid only transform, origin alignment left-multiplies
 ref_0 . inverse(own_0) (instances of C04.3/C04.4).
+C08.7 cache protocol (wave 7): a derived quantity that is stored on the object
+when first asked for is accepted iff every operation that rebinds a view it
+was computed from drops the stored value afterwards (per receiver class, by
+implication between path conditions); otherwise the operation is named.
+C08.8 also imports C04.2 (first-n).
 """
 UNDECIDED = [
     "numerical validity of poses as SE(3) after long operation histories "
